@@ -17,6 +17,9 @@ OTHER_DESCRIPTOR = bytes([0x72, 0x06, 0x29, 0x00, 0, 0, 0, 0])  # UNIT ATTENTION
 class SenseDecode(Unit):
     """SCSICheckCondition(sense), str(), print_data() for every buffer content of a given length"""
 
+    native_timeout = 10  # decoding a sense buffer natively takes microseconds
+    explore_budget_s = {"quick": 150, "thorough": 3000}  # (a case takes seconds; a decoder that loops is cut off here)
+
     name = "sense/SCSICheckCondition"
     properties = ("C08",)
 
@@ -114,12 +117,28 @@ class SenseTexts(Unit):
                     except Exception as ex:  # noqa
                         s = "<raised %s>" % type(ex).__name__
                     out.append((rc, key, asc, ascq, text, s))
+        # every (ASC, ASCQ) below 80h/80h: the description is the entry of the library's T10 table for exactly that pair
+        # (whose contents the sample above pins), "Unknown ASC/ASCQ" for pairs it does not list -- no pair is described
+        # by the entry of another pair or by a generic text
+        table = sensemod().sense_ascq_dict
+        self.mismatch = []
+        for asc in range(0x80):
+            for ascq in range(0x80):
+                want = table.get((asc << 8) | ascq, "Unknown ASC/ASCQ")
+                try:
+                    got = K(bytes([0x72, 5, asc, ascq, 0, 0, 0, 0]))._describe_ascq()
+                except Exception as ex:  # noqa
+                    got = "<raised %s>" % type(ex).__name__
+                if got != want:
+                    self.mismatch.append("%02X/%02X described as %r, the table says %r" % (asc, ascq, got[:40], want[:40]))
         return out
 
     def ensures(self, case, a, out, X):
         if out.kind != "return":
             yield "C08", "texts-evaluable", False
             return
+        mm = getattr(self, "mismatch", [])
+        yield "C08", "every-assigned-pair-is-described-by-its-own-table-entry%s" % (" (%s)" % "; ".join(mm[:3]) if mm else ""), not mm
         for rc, key, asc, ascq, text, s in out.value:
             yield "C08", "T10-text:rc=%02X,key=%X,asc=%02X,ascq=%02X" % (rc, key, asc, ascq), text.lower() in s.lower() and S.SENSE_KEYS[key].lower() in s.lower()
 
